@@ -13,9 +13,21 @@ K_p8file.v gets:
       (7, [])      the sanity re-lex of the transformed Lua (may raise; output unaffected)
   * p8_read_sections: the section-name dispatch of P8Formatter.from_file: name -> 0..4 as above, 5 lua, 6 label,
     in source order; anything else raises InvalidP8SectionError.
+  * p8_pad_sections: the loop after the dispatch that fills a short data section up to its full size,
+        for name, full in ((<name>, <Class>), ...):
+            section = getattr(new_game, name)
+            if section is not None:
+                default = full.empty(version=data.version)._data
+                if len(section._data) < len(default):
+                    section._data.extend(default[len(section._data):])
+    as the list, in source order, of (section key as above, the bytes of <Class>.empty(version=v)._data taken from the
+    running code - required to be the same for every version tried).  No such loop (the code before the fix) = [].
+    The whole body of from_file must be: the four prelude statements, the dispatch loop, at most one such loop,
+    `return new_game`.
 Anything the extractor does not recognise becomes an unbound identifier (fail closed).
 """
 import ast
+import re
 
 SEC = {'gfx': 0, 'map': 1, 'gff': 2, 'music': 3, 'sfx': 4, 'lua': 5, 'label': 6}
 
@@ -90,6 +102,50 @@ def _only_warnings(node):
     return True
 
 
+PAD_BODY = ("section = getattr(new_game, name)\n"
+            "if section is not None:\n"
+            "    default = full.empty(version=data.version)._data\n"
+            "    if len(section._data) < len(default):\n"
+            "        section._data.extend(default[len(section._data):])")
+
+
+def _bytes_expr(b):
+    """a Gallina list for the bytes b: `repeat v (Z.to_nat n)` for a constant region, else the literal"""
+    if len(b) > 8 and len(set(b)) == 1:
+        return 'repeat %d (Z.to_nat %d)' % (b[0], len(b))
+    return _zl(b)
+
+
+def _pad_table(mod, node, bad):
+    head = 'Definition p8_pad_sections : list (Z * list Z) := '
+    if bad:
+        return head + 'untranslatable__from_file_pad_after_' + bad[len('untranslatable__'):] + '.'
+    if node is None:
+        return head + '[].'
+    if node.orelse or ast.unparse(node.target) != '(name, full)' or \
+            '\n'.join(ast.unparse(s) for s in node.body) != PAD_BODY:
+        return head + 'untranslatable__from_file_pad_loop.'
+    it = node.iter
+    if not (isinstance(it, ast.Tuple) and it.elts):
+        return head + 'untranslatable__from_file_pad_iter.'
+    rows = []
+    for e in it.elts:
+        if not (isinstance(e, ast.Tuple) and len(e.elts) == 2 and isinstance(e.elts[0], ast.Constant) and
+                isinstance(e.elts[0].value, str) and isinstance(e.elts[1], ast.Name)):
+            return head + 'untranslatable__from_file_pad_pair.'
+        name, cls = e.elts[0].value, getattr(mod, e.elts[1].id, None)
+        if name not in SEC or name == 'lua' or cls is None or not hasattr(cls, 'empty'):
+            return head + 'untranslatable__from_file_pad_name_%s.' % re.sub(r'\W', '_', name)
+        try:
+            ds = [bytes(cls.empty(version=v)._data) for v in (0, 1, 4, 8, 16, 29, 41, 255, 1000)]
+        except Exception:  # noqa
+            return head + 'untranslatable__from_file_pad_default_%s.' % name
+        if any(d != ds[0] for d in ds):
+            return head + 'untranslatable__from_file_pad_default_depends_on_version_%s.' % name
+        rows.append('(%d, %s)' % (SEC[name], _bytes_expr(ds[0])))
+    return head + '\n  [' + ';\n   '.join(rows) + '].'
+
+
 def p8file_extra(mod, tree, src):
     import py2gallina as P
     out = []
@@ -153,10 +209,15 @@ def p8file_extra(mod, tree, src):
                    ';\n   '.join('(%d, %s)' % (t, _zl(p)) for t, p in events) + '].')
     # ---- reader dispatch
     fn = P.find_function(tree, 'P8Formatter.from_file')
-    loop = [s for s in fn.body if isinstance(s, ast.For)]
+    stmts = [s for s in fn.body if not (isinstance(s, ast.Expr) and isinstance(s.value, ast.Constant))]
+    loop = [s for s in stmts if isinstance(s, ast.For)]
     disp = []
     bad = None
-    if len(loop) != 1 or ast.unparse(loop[0].iter) != 'data.section_lines':
+    shape = [type(s).__name__ for s in stmts]
+    if shape not in (['Assign'] * 4 + ['For', 'Return'], ['Assign'] * 4 + ['For', 'For', 'Return']) or \
+            ast.unparse(stmts[-1]) != 'return new_game':
+        bad = 'untranslatable__from_file_body_shape'
+    elif ast.unparse(loop[0].iter) != 'data.section_lines' or ast.unparse(loop[0].target) != 'section' or loop[0].orelse:
         bad = 'untranslatable__from_file_loop'
     else:
         node = loop[0].body[0] if len(loop[0].body) == 1 else None
@@ -190,6 +251,8 @@ def p8file_extra(mod, tree, src):
     else:
         out.append('Definition p8_read_sections : list (list Z * Z) :=\n  [' +
                    '; '.join('(%s, %d)' % (_zl(n.encode()), k) for n, k in disp) + '].')
+    # ---- the padding loop after the dispatch
+    out.append(_pad_table(mod, loop[1] if len(loop) == 2 else None, bad))
     # facts about from_file the model relies on, as pins on source text
     pre = [ast.unparse(s) for s in fn.body if not isinstance(s, (ast.For, ast.Return)) and
            not (isinstance(s, ast.Expr) and isinstance(s.value, ast.Constant))]
